@@ -77,6 +77,11 @@ From Coq Require Import List String Bool.
 Import ListNotations.
 From Hip Require Import VecSpec.
 
+(** every function body of the vector files (and of the drain / range / guarded-clone helpers) is, hash for hash, the one that was
+    read when the vector machine and its drivers were written or last reviewed (translator/shapes.json); none has appeared since *)
+Theorem vec_bodies_pinned : forallb snd pinned_bodies = true /\ Nat.leb 70 (List.length pinned_bodies) = true /\ unpinned_new_bodies = [].
+Proof. repeat split; vm_compute; reflexivity. Qed.
+
 Theorem vec_operation_bodies_recognised :
   forallb snd vec_shapes = true /\ Nat.leb 18 (List.length vec_shapes) = true /\ drain_extra_iterator_overrides = []
   /\ truncate_lowers_len_before_drops = true /\ drain_new_always_sets_len_to_start = true.
